@@ -1471,6 +1471,30 @@ func (c *Ctx) credentialNonEmpty() {
 			if !ok {
 				return
 			}
+			// a credential admitted through an inexact comparison (case-folded, prefix, suffix, substring)
+			// accepts keys that are not the configured one
+			cond := ifi.Cond
+			if u, isNot := cond.(*ssa.UnOp); isNot && u.Op == token.NOT {
+				cond = u.X
+			}
+			if call, isCall := cond.(*ssa.Call); isCall && len(call.Call.Args) == 2 {
+				switch cn := CalleeName(call); cn {
+				case "strings.EqualFold", "strings.HasPrefix", "strings.HasSuffix", "strings.Contains", "bytes.EqualFold", "bytes.HasPrefix", "bytes.HasSuffix", "bytes.Contains":
+					for i := 0; i < 2; i++ {
+						g, isGet := stripConv(call.Call.Args[i]).(*ssa.Call)
+						if !isGet || CalleeName(g) != "(net/http.Header).Get" || !strings.Contains(p.Desc(g.Call.Args[0], nil), "http.Request.Header") {
+							continue
+						}
+						other := stripConv(call.Call.Args[1-i])
+						if _, isConst := other.(*ssa.Const); isConst {
+							continue
+						}
+						n++
+						c.Fail("credential-nonempty", p.FuncKey(fn)+"/header-equals-secret", p.InstrPos(ifi), "the request's credential header is compared with a configured value through "+cn+", not for equality: keys that differ from the configured one (in letter case, or by extra characters) are admitted")
+					}
+				}
+				return
+			}
 			b, ok := ifi.Cond.(*ssa.BinOp)
 			if !ok || (b.Op != token.EQL && b.Op != token.NEQ) {
 				return
